@@ -84,7 +84,7 @@ void harness(void)
 		c->base.copy = meta_reader_copy;
 		c->base.refcount = 1;
 
-		VERIF_ASSERT(c != o && !VERIF_SAME_OBJECT(c, o), C19_OB("fresh"));
+		VERIF_ASSERT(c != o && C19_DISTINCT(c, o), C19_OB("fresh"));
 		VERIF_ASSERT(c->start == o->start && c->limit == o->limit &&
 			     c->data_used == o->data_used &&
 			     c->block_offset == o->block_offset &&
